@@ -1605,6 +1605,9 @@ func applyGC(cells []*btpb.Cell, rule *btapb.GcRule, now bigtable.Timestamp) []*
 		return cells[:si]
 	case *btapb.GcRule_MaxNumVersions:
 		n := int(rule.MaxNumVersions)
+		if n < 0 {
+			return cells // not a valid rule (the real API rejects it); keep everything
+		}
 		if len(cells) > n {
 			cells = cells[:n]
 		}
